@@ -228,7 +228,8 @@ def main():
         if grid is None:
             continue
         check_grid_export(ctx, cid, api, meshio, cal, grid, mesh, domcls, data, seen)
-        check_function_export(ctx, cid, api, meshio, cal, grid, mesh, rng, kind, degree, cplx, loc, tname, data, seen)
+        # every fourth block of five cases hands over SINGLE-precision coefficients (float32 / complex64)
+        check_function_export(ctx, cid, api, meshio, cal, grid, mesh, rng, kind, degree, cplx, loc, tname, data, seen, single=(i // 5) % 4 == 1)
 
     ctx.note("calibration_by_direct_meshio_roundtrip", cal.table())
     ctx.note("coverage_seen", {k: sorted(str(x) for x in v) for k, v in seen.items()})
@@ -309,7 +310,7 @@ def check_grid_export(ctx, cid, api, meshio, cal, grid, mesh, domcls, data, seen
                 ctx.count("grid_files_compared")
 
 
-def check_function_export(ctx, cid, api, meshio, cal, grid, mesh, rng, kind, degree, cplx, loc, tname, data, seen):
+def check_function_export(ctx, cid, api, meshio, cal, grid, mesh, rng, kind, degree, cplx, loc, tname, data, seen, single=False):
     V, E = np.asarray(grid.vertices), np.asarray(grid.elements).astype(np.int64)
     sname = "%s%d" % (kind, degree)
     gf = vals = None
@@ -320,11 +321,20 @@ def check_function_export(ctx, cid, api, meshio, cal, grid, mesh, rng, kind, deg
         space = api.function_space(grid, kind, degree)
         ndof = space.global_dof_count
         coeffs = rng.normal(size=ndof) + (1j * rng.normal(size=ndof) if cplx else 0.0)
+        if single:
+            coeffs = coeffs.astype(np.complex64 if cplx else np.float32)
+            ctx.count("single_precision_coefficient_vectors")
         gf = api.GridFunction(space, coefficients=coeffs)
         vals = np.array(gf.evaluate_on_vertices() if loc == "node" else gf.evaluate_on_element_centers())
     if vals is None:
         return
+    if single:
+        # the model works in double precision on the (exactly converted) single-precision values; real / imag / None are
+        # still exact, formulas evaluated by the library in single precision get a single-precision slack
+        vals = vals.astype(np.complex128 if np.iscomplexobj(vals) else np.float64)
     want, slack = documented_transform(vals, tname)
+    if single and tname not in (None, "real", "imag"):
+        slack = max(slack, 4e-6)
     want = np.asarray(want)
     if want.ndim != 2 or not np.all(np.isfinite(want)):
         ctx.count("function_skipped:non_finite_expected_values")
